@@ -37,6 +37,14 @@ def step (d : D) (line : String) : D × String :=
     | some s0 =>
       let s' := run s0 d.tail
       ({ d with st := s' }, s!"data=[{showData s'}]")
+  | ["snapfail", t0, i0, t, i] =>
+    match t0.toNat?, i0.toNat?, t.toNat?, i.toNat? with
+    | some t0, some i0, some t, some i =>
+      -- a fresh receiver at position (t0, i0) (none if both are 0); the entry's state machine run is "ignored"
+      let s0 : St := if t0 == 0 && i0 == 0 then {} else setPos {} 0 ⟨t0, i0⟩
+      let (s1, _) := apply s0 { cluster := 0, term := t, index := i, ignored := true }
+      (d, s!"pos={showPos s1 0}")
+    | _, _, _, _ => (d, "bad-op")
   | ["pos", c] => match c.toNat? with
     | some c => (d, showPos d.st c)
     | none => (d, "bad-op")
